@@ -542,7 +542,7 @@ func (mr MeshReader) Read(reader io.Reader) (*modeling.Mesh, error) {
 		mesh = reader.UpdateMesh(mesh)
 	}
 
-	if len(uvs) == len(indices) {
+	if len(uvs) > 0 && len(uvs) == len(indices) {
 		mesh = mesh.
 			Transform(meshops.UnweldTransformer{}).
 			SetFloat2Attribute(modeling.TexCoordAttribute, uvs)
